@@ -71,7 +71,10 @@ func c16GenTables() string {
 	for _, t := range d2themescatalog.DarkCatalog {
 		ids = append(ids, coqZ(t.ID))
 	}
-	b.WriteString("Definition theme_ids : list Z := " + coqList(ids) + ".\n")
+	b.WriteString("Definition theme_ids : list Z := " + coqList(ids) + ".\n\n")
+	b.WriteString(c16CoqWords("label_positions", d2ast.LabelPositionsArray))
+	b.WriteString(c16CoqWords("tooltip_positions", d2ast.TooltipPositionsArray))
+	b.WriteString(c16CoqWords("near_constants", d2ast.NearConstantsArray))
 	return b.String()
 }
 
@@ -122,6 +125,9 @@ var c16Kws = []c16Kw{
 	{"pad", "KPad", "num", false, true},
 	{"sketch", "KSketch", "bool", false, true},
 	{"center", "KCenter", "bool", false, true},
+	{"label.near", "KLabelNear", "pos", false, false},
+	{"icon.near", "KIconNear", "pos", false, false},
+	{"tooltip.near", "KTooltipNear", "pos", false, false},
 }
 
 var c16Ctxs = []string{"CObj", "CEdge", "CArrow", "CConfig"}
@@ -289,6 +295,12 @@ func c16Field(a *d2graph.Attributes, k string) *string {
 		return sc(a.VerticalGap)
 	case "horizontal-gap":
 		return sc(a.HorizontalGap)
+	case "label.near":
+		return sc(a.LabelPosition)
+	case "icon.near":
+		return sc(a.IconPosition)
+	case "tooltip.near":
+		return sc(a.TooltipPosition)
 	case "direction":
 		v := a.Direction.Value
 		return &v
@@ -363,7 +375,11 @@ func c16Run(ctx string, k c16Kw, src string) (o c16Obs) {
 		o.skip = "null"
 		return
 	}
-	if len(mk.Key.Path) == 0 || mk.Key.Path[len(mk.Key.Path)-1].Unbox().ScalarString() != k.name {
+	lastName := k.name
+	if i := strings.LastIndex(lastName, "."); i >= 0 {
+		lastName = lastName[i+1:]
+	}
+	if len(mk.Key.Path) == 0 || mk.Key.Path[len(mk.Key.Path)-1].Unbox().ScalarString() != lastName {
 		o.skip = "key-mismatch"
 		return
 	}
@@ -537,6 +553,63 @@ func c16WordVals() []string {
 	for _, w := range []string{"zzz", "rect", "rectangl", "Rectangle ", "circlE", "CIRCLE", "up ", "UP", "Down", "diagonal", "top", "bottom",
 		"sans", "serif", "MONO", "Mono", "Default", "source-sans-pro", "dotted", "solid", "title", "NONE", "None", "rectang\xc5le", "ſ", "K", "İ",
 		"sq\xffuare", "\xc5\xbf", "\xc5", "\xe2\x84", "\xe2\x84\xaa", "s\xe2\x84\xaa", "é", "squareé", "ÉPAGE", "page\x00"} {
+		add(w)
+	}
+	return out
+}
+
+func c16PosVals() []string {
+	var base []string
+	base = append(base, d2ast.LabelPositionsArray...)
+	base = append(base, d2ast.TooltipPositionsArray...)
+	base = append(base, d2ast.NearConstantsArray...)
+	// documented positions, so that an entry removed from the code is still exercised
+	for _, a := range []string{"top", "center", "bottom"} {
+		for _, b := range []string{"left", "center", "right"} {
+			base = append(base, a+"-"+b)
+		}
+	}
+	for _, p := range []string{"outside", "border"} {
+		for _, b := range []string{"left", "center", "right"} {
+			base = append(base, p+"-top-"+b, p+"-bottom-"+b)
+		}
+		for _, b := range []string{"top", "center", "bottom"} {
+			base = append(base, p+"-left-"+b, p+"-right-"+b)
+		}
+	}
+	var out []string
+	seen := map[string]bool{}
+	add := func(s string) {
+		if !seen[s] {
+			seen[s] = true
+			out = append(out, s)
+		}
+	}
+	for _, w := range base {
+		add(w)
+	}
+	for i, w := range base {
+		switch i % 6 {
+		case 0:
+			add(strings.ToUpper(w))
+		case 1:
+			add(strings.ToUpper(w[:1]) + w[1:])
+		case 2:
+			add(w + " ")
+			add(" " + w)
+		case 3:
+			add(strings.Replace(w, "-", "_", -1))
+			add(strings.Replace(w, "-", " ", -1))
+		case 4:
+			add(w[:len(w)-1])
+			add(w + "x")
+		default:
+			add(strings.Replace(w, "i", "İ", 1))
+			add(strings.Replace(w, "-", ".", 1))
+		}
+	}
+	for _, w := range []string{"center", "top", "left", "middle-center", "center-middle", "outside-center-center", "border-center-center",
+		"outside-top", "inside-top-left", "top-left-outside", "left-top", "right-bottom", "outside-top-middle", "top-center.foo", "x", ""} {
 		add(w)
 	}
 	return out
@@ -773,6 +846,13 @@ func c16Gen(r *Rng, tier string, n int) []Case {
 			table = append(table, v)
 		}
 	}
+	posVals := c16PosVals()
+	for _, v := range posVals {
+		if _, ok := fam[v]; !ok {
+			fam[v] = "pos"
+			table = append(table, v)
+		}
+	}
 
 	add := func(ctx string, k c16Kw, v string, quoted bool, class string) {
 		if k.name == "shape" && v == "" {
@@ -926,11 +1006,151 @@ func c16Gen(r *Rng, tier string, n int) []Case {
 			v, class = c16MutCaseASCII(r, c16BoolVals[r.Intn(len(c16BoolVals))]), "random-bool"
 		case k.family == "color":
 			v, class = c16RandColor(r), "random-color"
+		case k.family == "pos":
+			v, class = c16MutCase(r, posVals[r.Intn(len(posVals))]), "random-pos"
 		default:
 			v, class = c16MutCase(r, words[r.Intn(len(words))]), "random-word"
 		}
 		addBoth(ctx, k, v, class)
 	}
+	out = append(out, c16NearCases(r, tier, n, posVals)...)
 	_ = counts
+	return out
+}
+
+// ---------------------------------------------------------------- near: CONSTANT on the only object
+
+func c16KeyPath(v string) (ok bool, path []string) {
+	defer func() {
+		if e := recover(); e != nil {
+			ok, path = false, nil
+		}
+	}()
+	k, err := d2parser.ParseKey(v)
+	if err != nil || k == nil {
+		return false, nil
+	}
+	return true, d2graph.Key(k)
+}
+
+func c16CoqPath(ok bool, p []string) string {
+	if !ok {
+		return "None"
+	}
+	var xs []string
+	for _, e := range p {
+		xs = append(xs, coqBytes(e))
+	}
+	return "(Some " + coqList(xs) + ")"
+}
+
+func c16NearCases(r *Rng, tier string, n int, posVals []string) []Case {
+	var out []Case
+	seen := map[string]bool{}
+	add := func(v, class string) {
+		src := "x.near: " + c16Lit(v, true) + "\n"
+		ast, err := d2parser.Parse("", strings.NewReader(src), nil)
+		if err != nil {
+			return
+		}
+		mk, sc := c16LastKV(ast)
+		if mk == nil || sc == nil {
+			return
+		}
+		if _, isNull := sc.(*d2ast.Null); isNull {
+			return
+		}
+		v = sc.ScalarString()
+		if seen[v] {
+			return
+		}
+		seen[v] = true
+		pok, ppath := c16KeyPath(v)
+		c := Case{Class: class, Key: "near|" + v, Input: map[string]any{"ctx": "CObj", "keyword": "near", "value": v, "d2": src}}
+		accepted, errClass, nerr := false, 0, 0
+		var stored []string
+		var errMsg string
+		func() {
+			defer func() {
+				if e := recover(); e != nil {
+					c.ImplFail = append(c.ImplFail, fmt.Sprintf("panic: %v", e))
+				}
+			}()
+			g, _, err := d2compiler.Compile("", strings.NewReader(src), nil)
+			if err != nil {
+				pe, ok := err.(*d2parser.ParseError)
+				if !ok || len(pe.Errors) == 0 {
+					c.ImplFail = append(c.ImplFail, "unexpected error type: "+err.Error())
+					return
+				}
+				nerr = len(pe.Errors)
+				e := pe.Errors[0]
+				errMsg = e.Message
+				vr := sc.GetRange()
+				switch {
+				case e.Range.Start == vr.Start && e.Range.End == vr.End:
+					errClass = 1
+				case e.Range.Start == mk.Range.Start:
+					errClass = 2
+				default:
+					errClass = 3
+				}
+				return
+			}
+			accepted = true
+			for _, ob := range g.Objects {
+				if ob.AbsID() == "x" && ob.NearKey != nil {
+					stored = d2graph.Key(ob.NearKey)
+				}
+			}
+		}()
+		if nerr > 1 {
+			c.ImplFail = append(c.ImplFail, fmt.Sprintf("%d errors for one bad value", nerr))
+		}
+		_, isConst := d2ast.NearConstants[v]
+		c.Nontrivial = accepted || isConst || strings.Contains(v, "-")
+		if accepted && pok && len(ppath) > 1 {
+			if _, ok := d2ast.NearConstants[ppath[0]]; ok {
+				c.KF = append(c.KF, "C16-near-constant-prefix")
+			}
+		}
+		c.Coq = fmt.Sprintf("CaseNear %s %s %s %d %s", coqBytes(v), c16CoqPath(pok, ppath), coqBool(accepted), errClass,
+			c16CoqPath(accepted && stored != nil, stored))
+		impl := map[string]any{"accepted": accepted, "err_class": errClass, "parsed_path": ppath}
+		if errMsg != "" {
+			impl["err"] = errMsg
+		}
+		if stored != nil {
+			impl["stored_path"] = stored
+		}
+		c.Impl = impl
+		out = append(out, c)
+	}
+	for _, v := range []string{"top-center.foo", "top-center", "bottom-right.x.y", "x", "y", "x.y", "top-center.", ".top-center", "top.center"} {
+		add(v, "near-corpus")
+	}
+	for _, v := range posVals {
+		add(v, "near-table")
+	}
+	for _, v := range []string{"0", "1", "true", "red", "circle", "a-b", "a--b", "a-", "-a", "a -> b", "(a -> b)[0]", "a.b.c", "top-center-", "top--center",
+		"center-center", "topcenter", "top_center", "*", "**", "a*", "&x", "!x", "x: y", "{", "}", "[", "a;b", "#c", "'top-center'", "top-center # c", "a\\.b"} {
+		add(v, "near-cross")
+	}
+	m := n / 10
+	for i := 0; i < m; i++ {
+		w := d2ast.NearConstantsArray[r.Intn(len(d2ast.NearConstantsArray))]
+		switch r.Intn(5) {
+		case 0:
+			w = c16MutCaseASCII(r, w)
+		case 1:
+			w += []string{".x", ".top-left", ".", " ", ".x.y", "-x", "x"}[r.Intn(7)]
+		case 2:
+			w = []string{"x.", ".", " ", "y.", "a-"}[r.Intn(5)] + w
+		case 3:
+			p := r.Intn(len(w))
+			w = w[:p] + []string{"-", ".", " ", "x", ""}[r.Intn(5)] + w[p+1:]
+		}
+		add(w, "near-random")
+	}
 	return out
 }
